@@ -153,6 +153,9 @@ class LifecycleSystem:
                             yield ("addmon", i, c, "unique")
                         else:
                             yield ("delmon", i, c)
+                            if m.cells[i][c] == "pooled":
+                                # replace a (possibly shared) pooled monitor by a unique one of the same name
+                                yield ("addmon", i, c, "unique")
             yield ("train", i)
             yield ("eval", i)
             yield ("clear", i)
@@ -351,34 +354,59 @@ class LifecycleSystem:
         return (m.ltrain, tuple(per), tuple(owners), w.layer_hooks())
 
     # ---- differential oracle -------------------------------------------------------
+    # observe the shared postsynaptic population and are legitimately pooled across cells (elig_pre filters the pooled
+    # postsynaptic trace, so it inherits whatever that monitor recorded before the cell joined)
+    SHARED_NAMES = ("trace_post", "spike_post", "elig_pre")
+
     def differential(self, st, history, tally):
-        """data of trainer i's monitors == data in the world where only trainer i's events happened"""
+        """(1) the data of trainer i's monitors equals the data in the world where the other trainer's events never happened;
+        (2) the data of the cell-specific monitors of (trainer i, cell c) - those observing the cell's own connection, its
+        eligibility monitors, unique custom monitors - equals the data in the world where trainer i's other cells were never
+        registered. Monitors on the shared postsynaptic population are legitimately pooled across cells (they may hold data
+        from before a cell joined) and are only compared in (1)."""
         out = []
         for i in range(self.nt):
             if not st.m.alive[i]:
                 continue
-            proj = tuple(op for op in history if not (len(op) > 1 and isinstance(op[1], int) and op[1] != i))
-            if len(proj) == len(history):
-                continue  # nothing of the other trainer in this history
-            key = (i, proj)
-            if key not in self.solo_cache:
-                try:
-                    solo = self.build(list(proj), only=None)
-                    self.solo_cache[key] = self.data_of(solo, i)
-                except Exception as ex:
-                    self.solo_cache[key] = ("raised", repr(ex))
-            ref = self.solo_cache[key]
-            if isinstance(ref, tuple) and ref and ref[0] == "raised":
-                continue
-            got = self.data_of(st, i)
-            for k in ref:
-                a, b = got.get(k, "missing"), ref[k]
-                same = (a is None and b is None) or (isinstance(a, torch.Tensor) and isinstance(b, torch.Tensor) and a.shape == b.shape and torch.allclose(a, b, equal_nan=True))
-                if not same:
-                    out.append((f"interference:{self.kinds[i]}<-{self.kinds[1 - i]}:{k[1]}",
-                                f"monitor '{k[1]}' of cell '{k[0]}' (trainer {i}, {self.kinds[i]}) holds {None if not isinstance(a, torch.Tensor) else a.reshape(-1).tolist()} "
-                                f"but {None if b is None else b.reshape(-1).tolist()} when the other trainer's events are left out", None, None))
-                    break
+            got = None
+            for level, cells in (("trainer", [None]), ("cell", sorted(st.m.cells[i]))):
+                for c in cells:
+                    def keep(op):
+                        if len(op) > 1 and isinstance(op[1], int):
+                            if op[1] != i:
+                                return False
+                            if c is not None and op[0] in ("reg", "delcell", "addmon", "delmon") and op[2] != c:
+                                return False
+                        return True
+
+                    proj = tuple(op for op in history if keep(op))
+                    if len(proj) == len(history):
+                        continue
+                    key = (i, c, proj)
+                    if key not in self.solo_cache:
+                        try:
+                            solo = self.build(list(proj), only=None)
+                            self.solo_cache[key] = self.data_of(solo, i)
+                        except Exception as ex:
+                            self.solo_cache[key] = ("raised", repr(ex))
+                    ref = self.solo_cache[key]
+                    if isinstance(ref, tuple) and ref and ref[0] == "raised":
+                        continue
+                    if got is None:
+                        got = self.data_of(st, i)
+                    for k in ref:
+                        if c is not None:
+                            if k[0] != c or k[1] in self.SHARED_NAMES or (k[1] == "extra" and st.m.cells[i].get(c) != "unique"):
+                                continue
+                        a, b = got.get(k, "missing"), ref[k]
+                        same = (a is None and b is None) or (isinstance(a, torch.Tensor) and isinstance(b, torch.Tensor) and a.shape == b.shape and torch.allclose(a, b, equal_nan=True))
+                        if not same:
+                            other = self.kinds[1 - i] if (self.nt == 2 and level == "trainer") else "other-cell"
+                            out.append((f"interference:{self.kinds[i]}<-{other}:{k[1]}",
+                                        f"monitor '{k[1]}' of cell '{k[0]}' (trainer {i}, {self.kinds[i]}) holds "
+                                        f"{None if not isinstance(a, torch.Tensor) else a.reshape(-1).tolist()} but {None if b is None else b.reshape(-1).tolist()} "
+                                        f"when the events of {'the other trainer' if level == 'trainer' else 'the same trainer on its other cell'} are left out", None, None))
+                            return out
         return out
 
 
@@ -398,7 +426,7 @@ def lifecycle_shard(kinds, ntrainers, with_extra, depth, max_states):
 
     def step(st, op, check=True):
         bad = orig_step(st, op, check)
-        if check and not bad and ntrainers == 2:
+        if check and not bad:
             bad = bad + sysm.differential(st, hist_holder["h"] + [op], tally)
         return bad
 
@@ -553,7 +581,7 @@ def replay(case):
         op = tuple(op)
         bad = sysm.step(st, op, check=True)
         hist.append(op)
-        if not bad and len(cfg["trainers"]) == 2:
+        if not bad:
             bad = sysm.differential(st, hist, None)
         if bad:
             return {"violations": [b[:2] for b in bad], "at": list(op)}
